@@ -78,6 +78,7 @@ func witnesses() map[string]Case {
 	inner := foreign.Block{K: "tbl", Widths: []int{1500}, Rows: [][]foreign.Cell{{{Blocks: []foreign.Block{para(run1("inner cell"))}}}}}
 	p.Body = []foreign.Block{{K: "tbl", Widths: []int{3000}, Rows: [][]foreign.Cell{{{Blocks: []foreign.Block{inner, para(run1("outer cell"))}}}}}}
 	w[kfNestedTbl] = Case{Pkg: p}
+	w[kfCellOrder] = Case{Pkg: p} // same package: inner table first, then the cell's own paragraph
 	return w
 }
 
